@@ -5,12 +5,13 @@ From AV Require Import lib.Str lib.Md5 lib.TokSplit lib.ManifestTok model.C18_mo
 Import ListNotations.
 Local Open Scope string_scope.
 
-Lemma relayed_ok_model r m : relayed_ok r m (if r =? "" then m else rewrite_manifest m r) = true.
+Lemma remote_ok_model r m : remote_ok r m (rewrite_manifest m r) = true.
 Proof.
-  unfold relayed_ok. destruct (r =? ""); [apply String.eqb_refl|].
-  destruct (parse m) as [ss|] eqn:P; [|reflexivity]. destruct (parse_sound m ss P) as [W E].
+  unfold remote_ok. destruct (parse m) as [ss|] eqn:P; [|reflexivity]. destruct (parse_sound m ss P) as [W E].
   rewrite <- E at 1. rewrite (rw_valid r ss W). apply String.eqb_refl.
 Qed.
+Lemma relayed_ok_model r m : relayed_ok r m (if r =? "" then m else rewrite_manifest m r) = true.
+Proof. unfold relayed_ok. destruct (r =? ""); [apply String.eqb_refl|apply remote_ok_model]. Qed.
 
 Lemma try1_cases r a :
   (exists m, a = JCol m true /\ try1 r a = ROk (if r =? "" then m else rewrite_manifest m r)) \/
@@ -59,7 +60,7 @@ Proof. apply model_meets_spec_get. Qed.
 Theorem model_meets_spec_uuid lid uuid a : spec_uuid lid uuid a (collection_get_uuid lid uuid a) = true.
 Proof.
   destruct a as [m|c|]; cbn [collection_get_uuid spec_uuid]; try reflexivity.
-  destruct (take 5 uuid =? lid) eqn:E.
-  - apply (relayed_ok_model "" m).
-  - pose proof (relayed_ok_model (take 5 uuid) m) as H. unfold relayed_ok in *. destruct (take 5 uuid =? ""); exact H.
+  destruct (take 5 uuid =? lid); [apply String.eqb_refl|apply remote_ok_model].
 Qed.
+Theorem model_meets_spec_rw m r : remote_ok r m (rewrite_manifest m r) = true.
+Proof. apply remote_ok_model. Qed.
